@@ -8,7 +8,7 @@ import os
 from vlib.core import SplitMix
 
 # proposed_fix.diff applied to /repo?  (the model must follow the code): flip when the fix: commit lands
-FIXED = False
+FIXED = True
 KEY = "private-block-straddles-message-start"
 
 
